@@ -1,5 +1,5 @@
 ENGINES = [
-    {"name": "pyscan", "path": "vt/", "serves_properties": ["C01", "C10", "C11", "C13", "C19", "C20"],
+    {"name": "pyscan", "path": "vt/", "serves_properties": ["C01", "C02", "C10", "C11", "C13", "C19", "C20"],
      "kind_free_text": "runtime monitoring of the real Python scanner modules imported from /repo's working tree: recorded events judged by independent reference models, icontract invariants on live objects"},
 ]
 NOTES = "All checks: ./check <id> --tier quick|thorough [--seed N]; VERIF_SEED/VERIF_TIER honoured. Exit 0 held / 1 VIOLATION / 2 INCONCLUSIVE. See DESIGN.md."
@@ -32,3 +32,7 @@ add('C18', 'fsched', 'runtime monitoring under a controlled scheduler: every int
 add('C01', 'pyscan', 'runtime monitoring, differential: annotated callable vs baselines lacking one annotation, through the real scanner passes; GIR attributes and positioned warning events judged by a three-valued rule table (VALID/INVALID/UNSPECIFIED) written from the documentation',
     'held on the executions produced: every decided differential (VALID: documented attribute value incl. closure/destroy/length indices, caller-allocates, zero-termination, element types; INVALID: warning on the annotation\'s line and attribute unchanged) agreed with the rule table; two defects found and fixed ((not optional) clearing nullable; (closure) overridden by the name heuristic)',
     'trusted: rule table (c01.rule), stand-in C parser, stub GIRs; signals/vfuncs not generated here; combinations the documentation leaves open are not judged', 'DESIGN.md 4 C01')
+
+add('C02', 'pyscan', 'runtime monitoring: generated un-annotated headers through the real scanner passes; emitted GIR judged against an independently written C-spelling table and the documented defaults (transfer, nullable, throws, closure/destroy/scope, fixed-size arrays)',
+    'held on the executions produced (one recorded known finding: const dropped from "const void*" c:type): every spelling of the table in parameter/return/field/alias position, all generated callback/user_data/destroy/async arrangements, GError** positions, out/inout defaults',
+    'trusted: vt/ctable.py, stand-in C parser, stub GIRs; defaults the documentation does not pin down (returned records, pointer-to-_Bool, user data not named *data) are not judged', 'DESIGN.md 4 C02')
